@@ -377,6 +377,7 @@ func runC03(c *Ctx, r *Report) {
 
 func runC05(c *Ctx, r *Report) {
 	l := c.L
+	defer c03r6(c, r) // a scheme is a complete configuration: the score does not depend on the scheme initialised before
 	r.rule("C05-R1", "B", "P1",
 		"one slab per worker goroutine; Matcher.slab accessed only by scan and the constructor; the streaming filter's slab only under its mutex",
 		"two goroutines scribble on one scratch matrix: results depend on scheduling")
